@@ -40,5 +40,6 @@ search_harness!(c05_d2_b2_q0, 4, { c05_shape(2, 2, 2); });
 // depth 3, branching 2, horizon nodes quiet (15 nodes)
 search_harness!(c05_d3_b2_q0, 5, { c05_shape(2, 3, 3); });
 // chain shapes (branching 1): iterative deepening, depth gate and the repetition/terminal plumbing at depth 2 and 3
+// (both ran out of memory: 33 GB at 26 min for the depth-3 chain; kept for reference, not registered)
 search_harness!(c05_d2_b1_q1, 3, { c05_shape(1, 3, 2); });
 search_harness!(c05_d3_b1_q0, 3, { c05_shape(1, 3, 3); });
